@@ -82,3 +82,27 @@ Model/TractPre.vos Model/TractPre.vok Model/TractPre.required_vos: Model/TractPr
 Model/TractParse.vo Model/TractParse.glob Model/TractParse.v.beautified Model/TractParse.required_vo: Model/TractParse.v Engine/Regex.vo Gen/Patterns.vo PyRt/Str.vo Gen/Tables.vo Model/Trs.vo Model/Unpack.vo Model/TractPre.vo Model/Aliquot.vo
 Model/TractParse.vio: Model/TractParse.v Engine/Regex.vio Gen/Patterns.vio PyRt/Str.vio Gen/Tables.vio Model/Trs.vio Model/Unpack.vio Model/TractPre.vio Model/Aliquot.vio
 Model/TractParse.vos Model/TractParse.vok Model/TractParse.required_vos: Model/TractParse.v Engine/Regex.vos Gen/Patterns.vos PyRt/Str.vos Gen/Tables.vos Model/Trs.vos Model/Unpack.vos Model/TractPre.vos Model/Aliquot.vos
+Model/Containers.vo Model/Containers.glob Model/Containers.v.beautified Model/Containers.required_vo: Model/Containers.v Engine/Regex.vo Gen/Patterns.vo PyRt/Str.vo Gen/Tables.vo Model/Trs.vo
+Model/Containers.vio: Model/Containers.v Engine/Regex.vio Gen/Patterns.vio PyRt/Str.vio Gen/Tables.vio Model/Trs.vio
+Model/Containers.vos Model/Containers.vok Model/Containers.required_vos: Model/Containers.v Engine/Regex.vos Gen/Patterns.vos PyRt/Str.vos Gen/Tables.vos Model/Trs.vos
+Proofs/C17/Sort.vo Proofs/C17/Sort.glob Proofs/C17/Sort.v.beautified Proofs/C17/Sort.required_vo: Proofs/C17/Sort.v Engine/Regex.vo PyRt/Str.vo Model/Trs.vo Model/Containers.vo
+Proofs/C17/Sort.vio: Proofs/C17/Sort.v Engine/Regex.vio PyRt/Str.vio Model/Trs.vio Model/Containers.vio
+Proofs/C17/Sort.vos Proofs/C17/Sort.vok Proofs/C17/Sort.required_vos: Proofs/C17/Sort.v Engine/Regex.vos PyRt/Str.vos Model/Trs.vos Model/Containers.vos
+Proofs/C17/Keys.vo Proofs/C17/Keys.glob Proofs/C17/Keys.v.beautified Proofs/C17/Keys.required_vo: Proofs/C17/Keys.v Engine/Regex.vo Gen/Patterns.vo PyRt/Str.vo Gen/Tables.vo Model/Trs.vo Model/Containers.vo Proofs/C17/Sort.vo
+Proofs/C17/Keys.vio: Proofs/C17/Keys.v Engine/Regex.vio Gen/Patterns.vio PyRt/Str.vio Gen/Tables.vio Model/Trs.vio Model/Containers.vio Proofs/C17/Sort.vio
+Proofs/C17/Keys.vos Proofs/C17/Keys.vok Proofs/C17/Keys.required_vos: Proofs/C17/Keys.v Engine/Regex.vos Gen/Patterns.vos PyRt/Str.vos Gen/Tables.vos Model/Trs.vos Model/Containers.vos Proofs/C17/Sort.vos
+Proofs/C18/Lists.vo Proofs/C18/Lists.glob Proofs/C18/Lists.v.beautified Proofs/C18/Lists.required_vo: Proofs/C18/Lists.v Engine/Regex.vo PyRt/Str.vo Model/Trs.vo Model/Containers.vo
+Proofs/C18/Lists.vio: Proofs/C18/Lists.v Engine/Regex.vio PyRt/Str.vio Model/Trs.vio Model/Containers.vio
+Proofs/C18/Lists.vos Proofs/C18/Lists.vok Proofs/C18/Lists.required_vos: Proofs/C18/Lists.v Engine/Regex.vos PyRt/Str.vos Model/Trs.vos Model/Containers.vos
+Properties/C17.vo Properties/C17.glob Properties/C17.v.beautified Properties/C17.required_vo: Properties/C17.v Engine/Regex.vo Gen/Patterns.vo PyRt/Str.vo Gen/Tables.vo Model/Trs.vo Model/Containers.vo Proofs/C17/Sort.vo Proofs/C17/Keys.vo
+Properties/C17.vio: Properties/C17.v Engine/Regex.vio Gen/Patterns.vio PyRt/Str.vio Gen/Tables.vio Model/Trs.vio Model/Containers.vio Proofs/C17/Sort.vio Proofs/C17/Keys.vio
+Properties/C17.vos Properties/C17.vok Properties/C17.required_vos: Properties/C17.v Engine/Regex.vos Gen/Patterns.vos PyRt/Str.vos Gen/Tables.vos Model/Trs.vos Model/Containers.vos Proofs/C17/Sort.vos Proofs/C17/Keys.vos
+Properties/C18.vo Properties/C18.glob Properties/C18.v.beautified Properties/C18.required_vo: Properties/C18.v Engine/Regex.vo PyRt/Str.vo Model/Trs.vo Model/Containers.vo Proofs/C18/Lists.vo
+Properties/C18.vio: Properties/C18.v Engine/Regex.vio PyRt/Str.vio Model/Trs.vio Model/Containers.vio Proofs/C18/Lists.vio
+Properties/C18.vos Properties/C18.vok Properties/C18.required_vos: Properties/C18.v Engine/Regex.vos PyRt/Str.vos Model/Trs.vos Model/Containers.vos Proofs/C18/Lists.vos
+Extract/DispContainers.vo Extract/DispContainers.glob Extract/DispContainers.v.beautified Extract/DispContainers.required_vo: Extract/DispContainers.v Engine/Regex.vo PyRt/Str.vo Extract/Val.vo Extract/DispBase.vo Extract/DispTrs.vo Model/Trs.vo Model/Containers.vo
+Extract/DispContainers.vio: Extract/DispContainers.v Engine/Regex.vio PyRt/Str.vio Extract/Val.vio Extract/DispBase.vio Extract/DispTrs.vio Model/Trs.vio Model/Containers.vio
+Extract/DispContainers.vos Extract/DispContainers.vok Extract/DispContainers.required_vos: Extract/DispContainers.v Engine/Regex.vos PyRt/Str.vos Extract/Val.vos Extract/DispBase.vos Extract/DispTrs.vos Model/Trs.vos Model/Containers.vos
+Extract/Drv_containers.vo Extract/Drv_containers.glob Extract/Drv_containers.v.beautified Extract/Drv_containers.required_vo: Extract/Drv_containers.v Engine/Regex.vo Extract/Val.vo Extract/DispBase.vo Extract/DispContainers.vo
+Extract/Drv_containers.vio: Extract/Drv_containers.v Engine/Regex.vio Extract/Val.vio Extract/DispBase.vio Extract/DispContainers.vio
+Extract/Drv_containers.vos Extract/Drv_containers.vok Extract/Drv_containers.required_vos: Extract/Drv_containers.v Engine/Regex.vos Extract/Val.vos Extract/DispBase.vos Extract/DispContainers.vos
